@@ -7,14 +7,14 @@ META = {
     "technique": "Coq simulation proof by structural induction over programs (any nesting/depth, every fault oracle) for "
                  "the statement-lifting compiler; refutation witnesses for Result.rename; AST-level correspondence with "
                  "hy_compile; CPython execution of the real compiled code vs the reference semantics",
-    "level_text": "C01_compile_correct_partial: for every program nested arbitrarily from constants, variables, effectful "
-                  "calls, do, setv, setx, and, or, not, if, raise, every fault oracle, store and fuel, the compiled result "
-                  "and the documented reference semantics agree on outcome, effect trace (order included) and user "
-                  "variables, provided Result.rename does not fire (refuted otherwise: C01_rename_refuted, "
-                  "C01_setx_try_refuted, reproduced on the real compiler as known findings). while/break/continue and "
-                  "try are in the model, the AST correspondence and the oracle but not yet in the induction; calls with "
-                  "several arguments, operators, get/cut, let, for, comprehensions, with, fn, return are not modelled "
-                  "here (see C03-C09 for the ones that have their own models).",
+    "level_text": "C01_compile_correct_partial (coq/Props/C01.v): for EVERY program of the modelled source language -- "
+                  "constants, variables, effectful calls, do, setv, setx, and, or, not, if, while/else, break, continue, "
+                  "raise, try/except/else/finally, nested arbitrarily to any depth -- every fault oracle, store and fuel, "
+                  "the compiled result and the documented reference semantics agree on outcome, effect trace (order "
+                  "included) and user variables (forward simulation: unless the reference run exhausts its fuel), "
+                  "provided Result.rename does not fire (refuted otherwise: C01_rename_refuted, reproduced on the real "
+                  "compiler as a known finding). Calls with several arguments, operators, get/cut, let, for, "
+                  "comprehensions, with, fn, return, match are not in this model (C03-C09 have their own).",
     "level_note": "Trusted: Coq kernel; PySem validated against CPython each run, not verified; HySem written from the docs; "
                   "hand-written compiler model tied by AST-level differential runs; translator/compiler_tables.py. "
                   "Forms outside the theorem are decided by the oracle only on the programs explored.",
@@ -51,4 +51,4 @@ def run(chk):
                 "plus while/break/continue/try (half); every expression slot may hold a statement-producing form; a fault "
                 "table makes up to two effect points raise one of 5 exception classes; non-trivial = distinct program of size >= 4")
     cc.differential(chk, progs)
-    chk.extra["forms_without_theorem"] = ["while", "break", "continue", "try"]
+    chk.extra["forms_outside_the_model"] = ["calls with several arguments", "operators", "get", "cut", "let", "for", "comprehensions", "with", "fn", "return", "match"]
